@@ -855,6 +855,13 @@ func (g *gen) layout(mode string) layout {
 		n = 64 + g.r.Intn(337)
 		l.consumers = 2 + g.r.Intn(15)
 	}
+	// a few WIDE files (hundreds of keys each) loaded by several consumers: per-file batches far larger than
+	// any threshold an in-memory store might switch its update strategy at
+	wide := mode != "broken" && !large && g.r.Chance(1, 8)
+	if wide {
+		n = 2 + g.r.Intn(6)
+		l.consumers = 2 + g.r.Intn(15)
+	}
 	used := map[string]bool{}
 	isDir := map[string]bool{}
 	for i := 0; i < n; i++ {
@@ -910,6 +917,11 @@ func (g *gen) layout(mode string) layout {
 		}
 		for j := 0; j < nkeys; j++ {
 			m[fmt.Sprintf("f%d.%s", i, g.seg(false))] = g.text(5, mode == "percent")
+		}
+		if wide {
+			for j, nk := 0, 100+g.r.Intn(300); j < nk; j++ {
+				m[fmt.Sprintf("f%d.w%d", i, j)] = fmt.Sprintf("v%d.%d", i, j)
+			}
 		}
 		switch mode {
 		case "agree":
